@@ -17,6 +17,7 @@ claimed for operands for which the database has no memory form (`kmovb r32, k`, 
 -/
 import AsmjitVerif.Spec.RWCover
 import AsmjitVerif.Model.X86RW
+import AsmjitVerif.Lemmas.RWCover
 import AsmjitVerif.Gen.C12Rows
 import AsmjitVerif.Gen.C12Rows32
 import AsmjitVerif.Gen.C12A64
@@ -56,6 +57,14 @@ theorem rw_covers_db_partial : ∀ r ∈ x86Table, rowOkPartial r = true := by
   rcases hr with h | h
   · exact List.all_eq_true.mp Gen.C12Rows.table_ok r h
   · exact List.all_eq_true.mp Gen.C12Rows32.table_ok r h
+
+/-- the mode flag of a row matters only if some operand is a written general-purpose register.  tools/props/c12.py uses this:
+    a 32-bit-mode (database expectation, answer) pair without such an operand is stored once, in the 64-bit table, as the same
+    pair with `mode64 = true`; the 32-bit table holds the pairs that do have one. -/
+theorem mode_irrelevant_without_gp_write (l : Bool) (r : Row) (h : Lemmas.RWCover.noGpWrite r.dbOps = true) :
+    rowOkWith l { r with mode64 := false } = rowOkWith l { r with mode64 := true } := by
+  have hp : provides { r with mode64 := false } = provides { r with mode64 := true } := by funext e; rfl
+  simp only [rowOkWith, flagsOk, featOk, hp, Lemmas.RWCover.opsOk_mode_irrelevant l false true r.dbOps r.implOps h]
 
 /-- per operand (explicit and implicit ones): reported read ⊇ database read, reported write ⊇ database write, for memory operands
     too, and for general-purpose registers the reported byte masks contain the database's bit range -/
@@ -181,7 +190,7 @@ example : (Gen.C12Rows.table.filter fun r => (r.dbOps.zip r.implOps).any fun p =
     p.1.rmChecked && hasBits p.2.flags fRegMem && !p.1.memAlt.isEmpty).length > 300 := by decide +kernel
 example : (Gen.C12Rows.table.filter fun r => r.dbOps.any fun d => d.kind == 1 && d.gp && d.write && d.size == 4).length > 50 := by decide +kernel
 example : (Gen.C12Rows.table.filter fun r => r.dbOps.any fun d => d.runLen ≥ 2).length > 0 := by decide +kernel
-example : Gen.C12Rows32.tableSize > 1000 := by decide
+example : Gen.C12Rows32.tableSize > 100 := by decide
 example : (Gen.C12Rows32.table.filter fun r => !r.mode64 && r.dbOps.any fun d => d.kind == 1 && d.gp && d.write && d.size == 4).length > 50 := by decide +kernel
 example : (Gen.C12Rows.table.filter fun r => r.dbOps.any fun d => d.kind == 1 && !d.gp && d.write && d.width > 0).length > 300 := by decide +kernel
 example : (Gen.C12A64.table.filter fun r => r.dbOps.any fun d => d.runLen ≥ 2).length > 5 := by decide +kernel
